@@ -42,7 +42,6 @@ import (
 	"github.com/AdguardTeam/AdGuardDNS/internal/dnsserver/ratelimit"
 	"github.com/AdguardTeam/AdGuardDNS/internal/dnsserver/zzverif/vrt"
 	"github.com/AdguardTeam/AdGuardDNS/internal/dnssvc"
-	"github.com/AdguardTeam/AdGuardDNS/internal/errcoll"
 	"github.com/AdguardTeam/AdGuardDNS/internal/filter"
 	"github.com/AdguardTeam/AdGuardDNS/internal/geoip"
 	"github.com/AdguardTeam/AdGuardDNS/internal/metrics"
@@ -164,6 +163,16 @@ func (o *c20Outcome) bad(kind, where, format string, args ...any) {
 	o.Problems = append(o.Problems, c20Pb{Kind: kind, Where: where, Detail: fmt.Sprintf(format, args...)})
 }
 
+// rejectedAtBuild records that a constructor of the start-up sequence returned
+// an error: the server does not start with this configuration, i.e. it is
+// rejected (without a crash) after validate().
+func (o *c20Outcome) rejectedAtBuild(where string, err error) {
+	if o.Class == "accepted" {
+		o.Class = "rejected/build"
+		o.Err = where + ": " + err.Error()
+	}
+}
+
 func (o *c20Outcome) obs(format string, args ...any) {
 	o.Obs = append(o.Obs, fmt.Sprintf(format, args...))
 }
@@ -251,13 +260,13 @@ func (w *c20World) build(conf *configuration, o *c20Outcome) {
 	}
 
 	w.buildRateLimit(ctx, conf, o)
-	w.buildConnLimit(conf, logger, o)
+	w.buildConnLimit(conf, o)
 	w.buildMessages(ctx, b, o)
 	w.buildCache(ctx, b, o)
 	w.buildServers(ctx, b, o)
 	w.buildFilters(ctx, b, o)
 	w.buildMisc(ctx, b, o)
-	w.buildWorkers(conf, logger, o)
+	w.buildWorkers(conf, o)
 }
 
 // ---------------------------------------------------------------------------
@@ -267,7 +276,23 @@ func (w *c20World) build(conf *configuration, o *c20Outcome) {
 var c20Clients = []netip.Addr{
 	netip.MustParseAddr("192.0.2.7"),
 	netip.MustParseAddr("2001:db8:1::7"),
-	netip.MustParseAddr("198.51.100.9"),
+	netip.MustParseAddr("10.20.30.9"),
+	netip.MustParseAddr("a001:db8:2::9"),
+}
+
+// c20Bucket is the harness's own notion of the rate-limit bucket of ip: the
+// documented "subnet defined by subnet_key_len".  ok is false if the length
+// does not fit the family.
+func c20Bucket(ip netip.Addr, v4len, v6len int) (b netip.Prefix, ok bool) {
+	l := v4len
+	if ip.Is6() {
+		l = v6len
+	}
+	if l < 0 || l > ip.BitLen() {
+		return netip.Prefix{}, false
+	}
+
+	return netip.PrefixFrom(ip, l).Masked(), true
 }
 
 func (w *c20World) buildRateLimit(ctx context.Context, conf *configuration, o *c20Outcome) {
@@ -281,6 +306,7 @@ func (w *c20World) buildRateLimit(ctx context.Context, conf *configuration, o *c
 	if !ok {
 		return
 	}
+	seen := map[netip.Prefix]bool{}
 	for _, ip := range c20Clients {
 		req := c20Query("example.org", dns.TypeA)
 		var drop bool
@@ -291,7 +317,13 @@ func (w *c20World) buildRateLimit(ctx context.Context, conf *configuration, o *c
 		if !ok {
 			return
 		}
-		if err != nil {
+		bucket, bok := c20Bucket(ip, conf.RateLimit.IPv4.SubnetKeyLen, conf.RateLimit.IPv6.SubnetKeyLen)
+		fresh := bok && !seen[bucket]
+		seen[bucket] = true
+		if !fresh {
+			// Shares its bucket with an earlier client (short key length):
+			// nothing is demanded for it.
+		} else if err != nil {
 			o.bad("unserviceable", where+".IsRateLimited", "first request of %s: error %v", ip, err)
 		} else if drop {
 			o.bad("unserviceable", where+".IsRateLimited",
@@ -357,6 +389,54 @@ func (l *c20Listener) dial() (client net.Conn, offer func() bool) {
 	}
 }
 
+// c20PacketConn is an in-memory net.PacketConn.
+type c20PacketConn struct {
+	in     chan []byte
+	out    chan []byte
+	closed chan struct{}
+	once   sync.Once
+}
+
+func newC20PacketConn() *c20PacketConn {
+	return &c20PacketConn{
+		in:     make(chan []byte),
+		out:    make(chan []byte, 8),
+		closed: make(chan struct{}),
+	}
+}
+
+func (c *c20PacketConn) ReadFrom(b []byte) (n int, addr net.Addr, err error) {
+	select {
+	case p := <-c.in:
+		return copy(b, p), &net.UDPAddr{IP: net.IPv4(192, 0, 2, 7), Port: 40001}, nil
+	case <-c.closed:
+		return 0, nil, net.ErrClosed
+	}
+}
+
+func (c *c20PacketConn) WriteTo(b []byte, _ net.Addr) (n int, err error) {
+	select {
+	case c.out <- append([]byte{}, b...):
+		return len(b), nil
+	case <-c.closed:
+		return 0, net.ErrClosed
+	}
+}
+
+func (c *c20PacketConn) Close() (err error) {
+	c.once.Do(func() { close(c.closed) })
+
+	return nil
+}
+
+func (c *c20PacketConn) LocalAddr() net.Addr {
+	return &net.UDPAddr{IP: net.IPv4(127, 0, 0, 1), Port: 53}
+}
+
+func (c *c20PacketConn) SetDeadline(time.Time) error      { return nil }
+func (c *c20PacketConn) SetReadDeadline(time.Time) error  { return nil }
+func (c *c20PacketConn) SetWriteDeadline(time.Time) error { return nil }
+
 // c20Conn gives the pipe TCP addresses, which the servers expect.
 type c20Conn struct {
 	net.Conn
@@ -370,7 +450,7 @@ func (c c20Conn) RemoteAddr() net.Addr {
 	return &net.TCPAddr{IP: net.IPv4(192, 0, 2, 7), Port: 40000}
 }
 
-func (w *c20World) buildConnLimit(conf *configuration, logger interface{}, o *c20Outcome) {
+func (w *c20World) buildConnLimit(conf *configuration, o *c20Outcome) {
 	const where = "connlimiter"
 	var lim *connlimiter.Limiter
 	ok := o.step(where+" (connLimitConfig.toInternal)", func() {
@@ -438,7 +518,7 @@ func (w *c20World) buildMessages(ctx context.Context, b *builder, o *c20Outcome)
 		return
 	}
 	if err != nil {
-		o.bad("unserviceable", "builder.initMsgConstructor", "accepted configuration cannot be built: %v", err)
+		o.rejectedAtBuild("builder.initMsgConstructor", err)
 
 		return
 	}
@@ -454,13 +534,16 @@ func (w *c20World) buildMessages(ctx context.Context, b *builder, o *c20Outcome)
 	})
 	o.step("builder.initAccess", func() { err = b.initAccess(ctx) })
 	if err != nil {
-		o.bad("unserviceable", "builder.initAccess", "accepted configuration cannot be built: %v", err)
+		o.rejectedAtBuild("builder.initAccess", err)
 	}
 }
 
 // c20Upstream is the final handler: it answers every query with one A record.
 func c20Upstream() dnsserver.Handler {
 	return dnsserver.HandlerFunc(func(ctx context.Context, rw dnsserver.ResponseWriter, req *dns.Msg) error {
+		if req.Question[0].Qtype == dns.TypeTXT {
+			return rw.WriteMsg(ctx, req, c20BigResp(req))
+		}
 		resp := &dns.Msg{}
 		resp.SetReply(req)
 		resp.Answer = append(resp.Answer, &dns.A{
@@ -559,13 +642,13 @@ func (w *c20World) buildServers(ctx context.Context, b *builder, o *c20Outcome) 
 		return
 	}
 	if err != nil {
-		o.bad("unserviceable", "builder.initBindToDevice", "accepted configuration cannot be built: %v", err)
+		o.rejectedAtBuild("builder.initBindToDevice", err)
 
 		return
 	}
 	if !o.step("builder.initTLSManager", func() { err = b.initTLSManager(ctx) }) || err != nil {
 		if err != nil {
-			o.bad("unserviceable", "builder.initTLSManager", "accepted configuration cannot be built: %v", err)
+			o.rejectedAtBuild("builder.initTLSManager", err)
 		}
 
 		return
@@ -581,7 +664,7 @@ func (w *c20World) buildServers(ctx context.Context, b *builder, o *c20Outcome) 
 		return
 	}
 	if err != nil {
-		o.bad("unserviceable", "builder.initServerGroups", "accepted configuration cannot be built: %v", err)
+		o.rejectedAtBuild("builder.initServerGroups", err)
 
 		return
 	}
@@ -593,25 +676,26 @@ func (w *c20World) buildServers(ctx context.Context, b *builder, o *c20Outcome) 
 	}
 
 	mtrc := &c20Metrics{}
-	answered, plain := 0, 0
+	answered, udpAnswered, plain := 0, 0, 0
 	var pan, where string
 	synctest.Test(w.t, func(t *testing.T) {
 		for _, g := range b.serverGroups {
 			for _, srv := range g.Servers {
 				inner := newC20Listener()
+				pconn := newC20PacketConn()
 				var lc netext.ListenConfig = &agdtest.ListenConfig{
 					OnListen: func(_ context.Context, _, _ string) (net.Listener, error) {
 						return inner, nil
 					},
 					OnListenPacket: func(_ context.Context, _, _ string) (net.PacketConn, error) {
-						return nil, fmt.Errorf("verif: no packet conns")
+						return pconn, nil
 					},
 				}
 				if lim != nil {
 					lc = connlimiter.NewListenConfig(lc, lim)
 				}
 				baseConf := dnsserver.ConfigBase{
-					Network:        dnsserver.NetworkTCP,
+					Network:        dnsserver.NetworkAny,
 					Handler:        c20Upstream(),
 					Metrics:        mtrc,
 					Disposer:       b.cloner,
@@ -638,9 +722,9 @@ func (w *c20World) buildServers(ctx context.Context, b *builder, o *c20Outcome) 
 					continue
 				}
 				plain++
-				where = "ServerDNS tcp exchange"
+				where = "ServerDNS exchange"
 				pan = vrt.Catch(func() {
-					answered = c20TCPExchange(ctx, l, inner, baseConf.RequestContext.(*c20CtxCons))
+					answered, udpAnswered = c20Exchange(ctx, l, inner, pconn, baseConf.RequestContext.(*c20CtxCons))
 				})
 				if pan != "" {
 					dnsserver.VerifRelease(l)
@@ -657,13 +741,18 @@ func (w *c20World) buildServers(ctx context.Context, b *builder, o *c20Outcome) 
 	case pan != "":
 		o.bad("panic", where, "%s", pan)
 	case len(mtrc.panics) > 0:
-		o.bad("panic", "ServerDNS tcp exchange", "recovered in a server goroutine: %s", mtrc.panics[0])
+		o.bad("panic", "ServerDNS exchange", "recovered in a server goroutine: %s", mtrc.panics[0])
 	case plain > 0 && answered != 2:
 		o.bad("unserviceable", "ServerDNS tcp exchange",
 			"%d of 2 pipelined TCP queries were answered (max_pipeline_count=%d enabled=%v); virtual clock, client never idle",
 			answered, conf.RateLimit.TCP.MaxPipelineCount, conf.RateLimit.TCP.Enabled)
 	}
-	o.obs("tcp %d/%d", answered, plain)
+	if pan == "" && len(mtrc.panics) == 0 && plain > 0 && udpAnswered != 2 {
+		o.bad("unserviceable", "ServerDNS udp exchange",
+			"%d of 2 UDP queries were answered (max_udp_response_size=%s)",
+			udpAnswered, conf.DNS.MaxUDPResponseSize)
+	}
+	o.obs("tcp %d udp %d /%d", answered, udpAnswered, plain)
 }
 
 // c20CtxCons is the real request-context constructor of dnssvc that
@@ -691,17 +780,19 @@ func (c *c20CtxCons) cancelAll() {
 	}
 }
 
-// c20TCPExchange starts the server on the in-memory listener, sends two
-// pipelined queries over one connection and counts the answers.  It runs in a
+// c20Exchange starts the server on the in-memory listeners, sends two UDP
+// queries, then two pipelined queries over one TCP connection, and counts the
+// answers.  It runs in a
 // synctest bubble: no virtual time passes while the client is active, so even
 // 1 ns timeouts do not fire before the server has read and answered; time only
 // advances if the server blocks for good.
-func c20TCPExchange(
+func c20Exchange(
 	ctx context.Context,
 	l dnssvc.Listener,
 	inner *c20Listener,
+	pconn *c20PacketConn,
 	cc *c20CtxCons,
-) (answered int) {
+) (answered, udpAnswered int) {
 	if err := l.Start(ctx); err != nil {
 		panic(fmt.Errorf("starting: %w", err))
 	}
@@ -714,10 +805,37 @@ func c20TCPExchange(
 		_ = l.Shutdown(sctx)
 	}()
 
+	// UDP: a small query and one whose answer is about 3 KiB.
+	for i, q := range []*dns.Msg{c20Query("example.org", dns.TypeA), c20Query("big.example.org", dns.TypeTXT)} {
+		if i == 1 {
+			q.SetEdns0(4096, false)
+		}
+		p, err := q.Pack()
+		if err != nil {
+			panic(err)
+		}
+		synctest.Wait()
+		select {
+		case pconn.in <- p:
+		default:
+			// Nobody reads.
+			continue
+		}
+		synctest.Wait()
+		select {
+		case rp := <-pconn.out:
+			m := &dns.Msg{}
+			if uerr := m.Unpack(rp); uerr == nil && m.Response && m.Id == q.Id {
+				udpAnswered++
+			}
+		default:
+		}
+	}
+
 	synctest.Wait()
 	cli, offer := inner.dial()
 	if !offer() {
-		return 0
+		return 0, udpAnswered
 	}
 	defer cli.Close()
 
@@ -758,7 +876,7 @@ func c20TCPExchange(
 	_ = cli.Close()
 	<-werr
 
-	return answered
+	return answered, udpAnswered
 }
 
 // ---------------------------------------------------------------------------
@@ -782,8 +900,10 @@ func (w *c20World) buildFilters(ctx context.Context, b *builder, o *c20Outcome) 
 			continue
 		}
 		if err == nil || !strings.Contains(err.Error(), "initial refresh") {
-			o.bad("unserviceable", "builder.initHashPrefixFilters("+which+")",
-				"accepted configuration cannot be built: %v", err)
+			if err == nil {
+				err = fmt.Errorf("initial refresh unexpectedly succeeded")
+			}
+			o.rejectedAtBuild("builder.initHashPrefixFilters("+which+")", err)
 
 			continue
 		}
@@ -824,7 +944,7 @@ func (w *c20World) buildFilters(ctx context.Context, b *builder, o *c20Outcome) 
 		return
 	}
 	if err == nil || !strings.Contains(err.Error(), "refreshing default filter storage") {
-		o.bad("unserviceable", "builder.initFilterStorage", "accepted configuration cannot be built: %v", err)
+		o.rejectedAtBuild("builder.initFilterStorage", err)
 	}
 }
 
@@ -868,7 +988,7 @@ func (w *c20World) buildMisc(ctx context.Context, b *builder, o *c20Outcome) {
 // agdservice.NewRefreshWorker.
 // ---------------------------------------------------------------------------
 
-func (w *c20World) buildWorkers(conf *configuration, logger interface{}, o *c20Outcome) {
+func (w *c20World) buildWorkers(conf *configuration, o *c20Outcome) {
 	type wk struct {
 		name      string
 		ivl, tout time.Duration
@@ -939,5 +1059,3 @@ func (w *c20World) buildWorkers(conf *configuration, logger interface{}, o *c20O
 		}
 	}
 }
-
-var _ = errcoll.Interface(nil)
